@@ -5,7 +5,7 @@ Oracle for graceful shutdown (C36); harness: harness/cmd/shutdown.
 
 case args: workers=<n> tt=<ns> sd=<ns> p=<ns> bto=<ns> mb=<n> nd=<n> keep=<bits>
 ops:  span <dt> <t> <sid> <root> <peer> <dest>   (ext: owner = <w>)
-      hold <w> | tick <ns> | fwd | ev <sid> <dest> | txtick <ns> | stop | txstop | gor | agent
+      hold <w> | tick <ns> | fwd | ev <sid> <dest> | txtick <ns> | stop | tickstop <ns> | txstop | gor | agent
 agent cases (kind=agent script=<o|O|p|P|f joined by '.', or ->): agnew | agadd | agtick | agsent | agstop
 obs:  see harness/cmd/shutdown/main.go; every obs of a model op ends with
       h=<sid[!p|!b],…|-> u=<d<dest>:<sid.sid…>,…|->
@@ -162,6 +162,19 @@ def oStep (o : OSt) (op : List String) (exts : List (List String)) : OSt × Opti
       let q := r.1.lost.length - o.s.lost.length
       ({ o with s := r.1 },
        some (s!"left={listOr "," (left.map toString)} q={q} early=0" ++ tailStr o.s r.1))
+  | ["tickstop", ns] =>
+    match ns.toNat? with
+    | none => (o, some "bad-op")
+    | some ns =>
+      let r := step o.c keep o.s (.tickstop ns)
+      match r.2 with
+      | .refused => ({ o with s := r.1 }, some ("refused" ++ tailStr o.s r.1))
+      | _ =>
+        let dec := (sortPairs (r.1.decided.drop o.s.decided.length)).map fun p => toString p.2
+        let left := sortNat (r.1.buf.map (·.tid))
+        let q := r.1.lost.length - o.s.lost.length
+        ({ o with s := r.1 },
+         some (s!"dec={listOr "," dec} left={listOr "," (left.map toString)} q={q} early=0 panic=-" ++ tailStr o.s r.1))
   | ["txstop"] => run .txstop fun _ s' _ =>
       let pend : Int := if s'.tx.locked then -1 else ((s'.tx.pending.map (·.2.2.length)).foldl (· + ·) 0 : Nat)
       s!"pend={pend} fl=0"
@@ -249,6 +262,15 @@ def shMon (m : Mon) (op : List String) (_ : List (List String)) (obs : Option St
     let toks := o.splitOn " "
     let first := toks.headD ""
     if first == "panic" && op.head? != some "ev" then (m, []) else
+    -- a tick with Stop landing inside it: what the pass decided (kept or dropped: the sampler's
+    -- answer from the case header), then everything that is checked at a Stop
+    let (m, op) := match op with
+      | ["tickstop", _] =>
+        if first == "refused" then (m, ["noop"]) else
+        let ds := (parseList ((kv toks "dec").getD "-")).filterMap String.toNat?
+        (ds.foldl (fun (m : Mon) t =>
+          if keepFn m.keep t then { m with decK := t :: m.decK } else { m with decD := t :: m.decD }) m, ["stop"])
+      | _ => (m, op)
     let (m, ft) := monTail m toks
     match op with
     | ["span", _, t, sid, _, _, _] =>
@@ -287,7 +309,10 @@ def shMon (m : Mon) (op : List String) (_ : List (List String)) (obs : Option St
         | some t => m.decK.contains t && !m.handed.contains sid
         | none => false
       let f4 := if !lostDecided.isEmpty then [mkFail "stop-loses-decided-trace" s!"spans {natList lostDecided} belong to traces decided keep before Stop and were not handed to the transmission"] else []
-      ({ m with cstopped := true }, ft ++ f1 ++ f2 ++ f3 ++ f4)
+      let pn := (kv toks "panic").getD "-"
+      let f5 := if pn == "chansend" then [mkFail "stop-panics:send-on-closed-channel" "a worker that was handing a kept trace over when Stop was requested panicked: send on closed channel (tracesToSend was closed while a producer was still running)"]
+        else if pn != "-" then [mkFail s!"stop-panics:{pn}" s!"a worker goroutine panicked during Stop ({pn})"] else []
+      ({ m with cstopped := true }, ft ++ f1 ++ f2 ++ f3 ++ f5 ++ f4)
     | ["txstop"] =>
       let pend := (kv toks "pend").getD "0"
       let fl := (kv toks "fl").getD "0"
